@@ -6,7 +6,9 @@ Property theorems only (helper lemmas: `Pkgcore/Proofs/C07.lean`).  `eqv` is `==
 hashes, `mtch` is `match` (`Model/C07.lean`, mirroring the classes after the `fix:` commits); `SameMatch`, `hkEq`,
 `lookup` are the notions of the property (`Spec/C07.lean`).  `wf` only says that a version restriction holds an
 operator set of `_convert_str2op` (generated table) and that the version of an atom is one `isvalid_version_re`
-accepts.  Atom equality and hashing are the C02 model (`atom.__cmp__(other) == 0`, the canonical tuple).
+accepts.  Atom equality and hashing are the C02 model (`atom.__cmp__(other) == 0`, the canonical tuple); the match of
+an atom is an environment function of its canonical form, which `atom_match_depends_only_on_canon` justifies against
+the C04 model of `atom.match` (record conversion: `C03.toC04`).
 -/
 namespace Pkgcore.C07
 open Pkgcore.C07.Spec
@@ -83,6 +85,93 @@ theorem atom_equalities :
   simp only [Pkgcore.C02.Spec.atomCanon, exAtom, Pkgcore.C02.Atom.useAttr, Option.map_some, List.map]
   rw [Pkgcore.C02.sortUse_perm _ _ (List.Perm.swap _ _ [])]
   rfl
+
+/-- **`atom.match` as C04 models it reads an atom only through its canonical form.**  `mtch` takes the match of an atom
+to be `env.atomMatch (atomCanon a)` — an arbitrary function *of the canonical form* — so for atoms "equal ⇒ same
+match" holds in the C07 model by construction.  This theorem discharges that modelling choice against the real
+matching model: `C04.atomMatch` (the `AndRestriction` over `atom.restrictions`: repository, package, category, version
+restriction incl. `=*` and `negate_vers`, slot, sub-slot, the `StaticUseDep`/`UseDepDefault` restrictions built by
+`_parse_nontransitive_use`) on the record `C03.toC04 a` (the same attributes, USE tokens lexed as
+`_parse_nontransitive_use` lexes them) gives the same verdict for two atoms with the same `C02.Spec.atomCanon` — the
+spelling of the version (`1.0`/`1.00`, `_rc`/`_rc0`, `-r0`/none/`-r00`), the order of the USE deps, `!`/`!!` and the
+slot operator being all the canonical form forgets or keeps without `match` reading it.
+Hypotheses: valid versions (`atomOkB`, `Pkg.WF`: what `isvalid_version_re` accepts, for the atoms and the package) and
+`slotPartsOkB` (a written slot / sub-slot is not the empty string — `atom.__init__` rejects `a/b:`, `a/b:0/`), without
+which the canonical form's `slot or ""` cannot tell "no slot" from "slot ''" (`atom_match_canon_needs_slot_parts`). -/
+theorem atom_match_depends_only_on_canon (a b : Pkgcore.C02.Atom) (ha : atomOkB a = true) (hb : atomOkB b = true)
+    (hsa : slotPartsOkB a = true) (hsb : slotPartsOkB b = true)
+    (h : Pkgcore.C02.Spec.atomCanon a = Pkgcore.C02.Spec.atomCanon b) :
+    ∀ p : Pkgcore.C04.Pkg, Pkgcore.C04.Spec.Pkg.WF p →
+      Pkgcore.C04.atomMatch (Pkgcore.C03.toC04 a) p = Pkgcore.C04.atomMatch (Pkgcore.C03.toC04 b) p :=
+  fun p hp => atomMatch_of_canon a b ha hb hsa hsb h p hp
+
+/-- not vacuous: `=a/b-1.0[x,-y(-)]` and `=a/b-1.00-r0[-y(-),x]` are different records with one canonical form, and
+both match `a/b-1.0` with `IUSE=x USE=x` (the `(-)` default decides the missing flag `y`) -/
+example :
+    let v : Pkgcore.C01.Ver := ⟨[['1'], ['0']], none, []⟩
+    let v' : Pkgcore.C01.Ver := ⟨[['1'], ['0', '0']], none, []⟩
+    let a := exAtom "a" "b" (some (.eq, v, [])) (some ["x", "-y(-)"])
+    let b := exAtom "a" "b" (some (.eq, v', ['0'])) (some ["-y(-)", "x"])
+    let p : Pkgcore.C04.Pkg := ⟨['a'], ['b'], v, [], ['0'], ['0'], ['r'], [['x']], [['x']]⟩
+    (atomOkB a = true ∧ atomOkB b = true ∧ slotPartsOkB a = true ∧ slotPartsOkB b = true ∧ a.use ≠ b.use ∧
+      Pkgcore.C04.atomMatch (Pkgcore.C03.toC04 a) p = true ∧ Pkgcore.C04.atomMatch (Pkgcore.C03.toC04 b) p = true) ∧
+    Pkgcore.C02.Spec.atomCanon a = Pkgcore.C02.Spec.atomCanon b ∧ Pkgcore.C04.Spec.Pkg.WF p := by
+  refine ⟨by decide, ?_, ?_⟩
+  · simp only [Pkgcore.C02.Spec.atomCanon, exAtom, Pkgcore.C02.Atom.useAttr, Option.map_some, List.map]
+    rw [Pkgcore.C02.sortUse_perm _ _ (List.Perm.swap _ _ [])]
+    rfl
+  · refine ⟨by simp, ?_⟩
+    intro c hc
+    simp only [List.mem_cons, List.not_mem_nil, or_false] at hc
+    rcases hc with rfl | rfl <;> exact ⟨by simp, by decide⟩
+
+/-- the slot hypothesis is needed (and only excludes records no atom has): "no slot" and "slot `''`" share a canonical
+form — `atom._hash` / `__cmp__` use `slot or ""` — but only the second carries a `SlotDep` -/
+theorem atom_match_canon_needs_slot_parts :
+    let a := exAtom "a" "b" none none
+    let b := { exAtom "a" "b" none none with slot := some [] }
+    let p : Pkgcore.C04.Pkg := ⟨['a'], ['b'], ⟨[['1']], none, []⟩, [], ['0'], ['0'], ['r'], [], []⟩
+    Pkgcore.C02.Spec.atomCanon a = Pkgcore.C02.Spec.atomCanon b ∧ slotPartsOkB b = false ∧
+    Pkgcore.C04.atomMatch (Pkgcore.C03.toC04 a) p = true ∧ Pkgcore.C04.atomMatch (Pkgcore.C03.toC04 b) p = false := by
+  intro a b p
+  exact ⟨rfl, by decide, by decide, by decide⟩
+
+/-- the same, in the shape the model uses it: **there is a function of the canonical form that is C04's `atom.match`**
+— the `atomMatch` field of `Env` applied to `atomCanon a` in `mtch` stands for this function -/
+theorem atom_match_factors_through_canon :
+    ∃ f : AtomCanon → Pkgcore.C04.Pkg → Bool,
+      ∀ a : Pkgcore.C02.Atom, atomOkB a = true → slotPartsOkB a = true → ∀ p, Pkgcore.C04.Spec.Pkg.WF p →
+        Pkgcore.C04.atomMatch (Pkgcore.C03.toC04 a) p = f (Pkgcore.C02.Spec.atomCanon a) p := by
+  classical
+  refine ⟨fun c p =>
+    if h : ∃ a, atomOkB a = true ∧ slotPartsOkB a = true ∧ Pkgcore.C02.Spec.atomCanon a = c
+    then Pkgcore.C04.atomMatch (Pkgcore.C03.toC04 h.choose) p else false, ?_⟩
+  intro a ha hs p hp
+  have hex : ∃ a', atomOkB a' = true ∧ slotPartsOkB a' = true ∧
+      Pkgcore.C02.Spec.atomCanon a' = Pkgcore.C02.Spec.atomCanon a := ⟨a, ha, hs, rfl⟩
+  obtain ⟨h1, h2, h3⟩ := hex.choose_spec
+  show _ = dite _ _ _
+  rw [dif_pos hex]
+  exact atom_match_depends_only_on_canon a _ ha h1 hs h2 h3.symm p hp
+
+/-- **atoms that compare equal (`atom.__eq__`, C02) are matched alike by C04's `atom.match`** — the atom case of
+`eq_implies_same_match`, with the match of C04 in place of the environment's -/
+theorem equal_atoms_same_c04_match (a b : Pkgcore.C02.Atom) (ha : wf (.atom a) = true) (hb : wf (.atom b) = true)
+    (hsa : slotPartsOkB a = true) (hsb : slotPartsOkB b = true) (h : eqv (.atom a) (.atom b) = true)
+    (p : Pkgcore.C04.Pkg) (hp : Pkgcore.C04.Spec.Pkg.WF p) :
+    Pkgcore.C04.atomMatch (Pkgcore.C03.toC04 a) p = Pkgcore.C04.atomMatch (Pkgcore.C03.toC04 b) p := by
+  simp only [wf] at ha hb
+  simp only [eqv, beq_iff_eq] at h
+  exact atom_match_depends_only_on_canon a b ha hb hsa hsb
+    ((atomEq_iff_canon a b (atomWF_of_ok a ha) (atomWF_of_ok b hb)).mp h) p hp
+
+example :
+    let v : Pkgcore.C01.Ver := ⟨[['1'], ['0']], none, []⟩
+    let v' : Pkgcore.C01.Ver := ⟨[['1'], ['0', '0']], none, []⟩
+    let a := exAtom "a" "b" (some (.glob, v, [])) none
+    let b := exAtom "a" "b" (some (.glob, v', ['0', '0'])) none
+    wf (.atom a) = true ∧ wf (.atom b) = true ∧ slotPartsOkB a = true ∧ slotPartsOkB b = true ∧
+      eqv (.atom a) (.atom b) = true := by decide
 
 /-- **a restriction-keyed cache never answers with a result computed for a different query.**
 `cache` is a Python dict whose entries were all stored as `compute key` (the invariant of `caching_repo.match` and of
